@@ -42,7 +42,13 @@ def realise(feat: Dict[str, bool], root: Path) -> List[str]:
             'def helper():\n    """Function helper, see L{pk.mf}."""\n'
             'def mf(x: int = 1) -> int:\n    """Function mf, see L{helper}."""\n')
     (pk / "__init__.py").write_text(init)
-    mod = ['"""Module mod, see L{Hid}."""',
+    mod = ['"""',
+           'Module mod, see L{Hid}.',
+           '',
+           'Overview',
+           '========',
+           '  Text of the section.',
+           '"""',
            'from typing import Generic, TypeVar',
            'class Base:',
            '    """Class Base."""',
@@ -55,7 +61,7 @@ def realise(feat: Dict[str, bool], root: Path) -> List[str]:
            '        @see: L{attr}',
            '        """',
            '    def other(self):',
-           '        """Method other."""',
+           '        """Method other, see L{attr}."""',
            '    attr: Hid = None',
            '    """Attribute attr."""',
            'class Hid:',
@@ -119,7 +125,9 @@ EXTRA_PROJECTS: Dict[str, Dict[str, str]] = {
     "redefined-base": {"m.py": '"""Module m."""\nclass A:\n    """First A."""\n    def old(self):\n        """Old method."""\n'
                                'class A(A):\n    """Second A, extends the first."""\n    def new(self):\n        """New method, see L{old}."""\n'
                                'class B(A):\n    """Subclass of the second A."""\n'
-                               'class C(B):\n    """First C."""\nclass C(B):\n    """Second C: B has two known subclasses named C."""\n'},
+                               'class C(B):\n    """First C."""\nclass C(B):\n    """Second C: B has two known subclasses named C."""\n'
+                               # a base redefined AFTER its subclass
+                               'class P:\n    """First P."""\nclass Q(P):\n    """Subclass of the first P."""\nclass P:\n    """Second P."""\n'},
     # the same top-level package given twice on the command line, with different trees: the later one replaces the
     # earlier one with everything below it (System._handleDuplicateModule)
     "replaced-root": {"a/pk/__init__.py": '"""First pk."""\n', "a/pk/sub/__init__.py": '"""Sub-package."""\n',
@@ -152,7 +160,14 @@ EXTRA_PROJECTS["hidden-origin-nested"] = {
     "pkg/__init__.py": '"""Package."""\nfrom pkg._hid import Outer\n__all__ = ["Outer"]\n',
     "pkg/_hid.py": '"""Hidden implementation module."""\nclass Outer:\n    """Outer class."""\n    class Inner:\n        """Nested class."""\n'
                    '        def im(self):\n            """Method im."""\n    def om(self):\n        """Method om."""\n'}
-EXTRA_SRC = {"hidden-origin-nested": ["pkg"], "superseded-module": ["pkg"], "replaced-root": ["a/pk", "b/pk"], "main-module": ["pkg"], "redefined-base": ["m.py"], "non-ascii": ["m.py"], "redefined-members": ["pkg"], "sectioned-docstring": ["pkg"]}
+# a package with more than 50 leaf modules (the module index presents them in its compact form)
+EXTRA_PROJECTS["many-modules"] = dict([("big/__init__.py", '"""Big package."""\n')] +
+                                      [("big/m%02d.py" % i, '"""Module %d."""\n' % i) for i in range(52)])
+# an EPYTEXT docstring with section headings (sidebar "Contents")
+EXTRA_PROJECTS["epytext-sections"] = {"pkg/__init__.py": '"""Package."""\n',
+                                      "pkg/mod.py": '"""\nModule.\n\nOverview\n========\n  Text.\n\nDetails\n=======\n  More text.\n"""\n'
+                                                    'class C:\n    """\n    Class.\n\n    Usage\n    =====\n      Use it.\n    """\n'}
+EXTRA_SRC = {"many-modules": ["big"], "epytext-sections": ["pkg"], "hidden-origin-nested": ["pkg"], "superseded-module": ["pkg"], "replaced-root": ["a/pk", "b/pk"], "main-module": ["pkg"], "redefined-base": ["m.py"], "non-ascii": ["m.py"], "redefined-members": ["pkg"], "sectioned-docstring": ["pkg"]}
 
 # the project of spec/PrivacyHistory.tla: the class K = Moved with methods F = mm, G = other, re-exported by api
 HISTORY_PROJECT = {
@@ -253,7 +268,7 @@ def run_job(job: Dict[str, Any]) -> Dict[str, Any]:
         if job["kind"] == "enum" and job.get("extra"):
             extra = extra        # (enum jobs normally carry no extra options; --html-subject runs do)
         res = sc.run_site({"name": job["name"], "src": srcs, "cwd": cwd, "out": job["out"], "privacy": privacy,
-                           "theme": job["theme"], "extra": extra})
+                           "theme": job["theme"], "extra": extra, "custom": job.get("custom")})
         res["job"] = job
         if job.get("root"):
             shutil.rmtree(job["root"], ignore_errors=True)
@@ -303,6 +318,8 @@ def to_case(res: Dict[str, Any]) -> Dict[str, Any]:
         "nd": job.get("nd", []), "depth": proj["sidebardepth"], "roots": proj["roots"],
         "rules": [{"p": r.split(":", 1)[0].upper(), "m": r.split(":", 1)[1]} for r in job.get("privacy", [])],
         "predict": bool(job.get("predict", True)), "partial": bool(job.get("partial", False)),
+        "toc": job.get("tocdepth", 6) > 0,
+        "custom": [{"m": m, "p": pp} for m, pp in sorted((job.get("custom") or {}).items())],
         "modelled": (ALL_PRODS if enum else STRUCTURAL_PRODS) + ENTRY_KINDS,
         "objs": objs,
         "site": {"files": site["files"], "pages": pages,
@@ -331,6 +348,7 @@ class View:
 
     def __init__(self, case: Dict[str, Any]):
         last_exact = {r["m"]: r["p"] for r in case.get("rules", [])}          # the manual: the LAST exact rule wins
+        last_exact.update({r["m"]: r["p"] for r in case.get("custom", [])})   # the custom system class adjusts last
         self.o = {i: (dict(o, priv=last_exact[i]) if i in last_exact else o)
                   for i, o in case["objs"].items()}
         self.privacy_not_as_documented = sorted(i for i, o in case["objs"].items() if self.o[i]["priv"] != o["priv"])
@@ -443,9 +461,9 @@ def verdict(case: Dict[str, Any]) -> Dict[str, Set[Tuple[Any, ...]]]:
         return f in files and (g == "" or (f in anchors and g in anchors[f]))
 
     out: Dict[str, Set[Tuple[Any, ...]]] = {k: set() for k in C11_INVARIANTS + C12_INVARIANTS}
-    full = not case.get("partial")            # a --html-subject run: links to pages outside the subjects are not judged
-    for l in s["links"] if full else ():
-        if not resolves(l["file"], l["frag"]):
+    full = not case.get("partial")            # a --html-subject run: links to pages it does not write are not judged
+    for l in s["links"]:
+        if not resolves(l["file"], l["frag"]) and (full or l["file"] in files):
             out["LinksResolve"].add((l["page"], l["file"], l["frag"], l["prod"],
                                      v.kf_link(l["page"], l["file"], l["frag"], l["prod"], l["member"])))
     for d in s["docs"]:
@@ -461,7 +479,8 @@ def verdict(case: Dict[str, Any]) -> Dict[str, Set[Tuple[Any, ...]]]:
         if not o["ownpage"] and not (o["frag"] != "" and resolves(o["file"], o["frag"])):
             out["VisibleMemberHasAnchor"].add((i, kf))
     if not full:
-        out["LinksResolve"].clear(); out["VisibleHasPage"].clear(); out["VisibleMemberHasAnchor"].clear()
+        out["LinksResolve"] = {x for x in out["LinksResolve"] if x[1] in files}
+        out["VisibleHasPage"].clear(); out["VisibleMemberHasAnchor"].clear()
     h = out["HiddenNoTrace"]
 
     def tk(f: str, g: str, other: str) -> str:           # class of a trace (Site.tla Verdict.HiddenNoTrace)
@@ -861,6 +880,10 @@ def run_property(ctx: Ctx, prop: str) -> int:
     rest = [i for i in range(len(recs)) if i not in set(chosen)]
     chosen += rng.sample(rest, max(0, min(len(rest), budget - len(chosen))))
     jobs = [enum_job(recs[i], i, ctx.scratch, THEMES[n % 3], rng.choice([0, 1, 6]), rng) for n, i in enumerate(chosen)]
+    for n, j in enumerate(jobs):          # every 4th assignment is realised by a custom --system-class instead of --privacy rules
+        if n % 4 == 3 and j["nd"]:
+            j["custom"] = {r["id"]: r["p"] for r in j["nd"]}
+            j["privacy"] = []
 
     # ---- code -> spec: the repository's own packages under varying rules / themes / depths
     tp = testpackages_dir()
@@ -875,7 +898,7 @@ def run_property(ctx: Ctx, prop: str) -> int:
             pass1.append(real_job("%s#0" % nm, srcs, [], THEMES[n % 3], 1 + n % 3, 6, ctx.scratch, len(pass1)))
     extras = []
     for n, nm in enumerate(sorted(EXTRA_PROJECTS)):
-        for vv, rules in enumerate([[], ["PRIVATE:**.f*", "HIDDEN:m.B", "HIDDEN:pkg.__main__", "HIDDEN:pkg._hid"], ["HIDDEN:**.A", "PRIVATE:m.Th*"]][:2 if ctx.quick else 3]):
+        for vv, rules in enumerate([[], ["PRIVATE:**.f*", "HIDDEN:m.B", "HIDDEN:pkg.__main__", "HIDDEN:pkg._hid", "HIDDEN:big.m07", "PRIVATE:big.m09"], ["HIDDEN:**.A", "PRIVATE:m.Th*"]][:2 if ctx.quick else 3]):
             j = real_job("x:%s#%d" % (nm, vv), [], rules, THEMES[(n + vv) % 3], 1 + vv, 6, ctx.scratch, 9000 + 10 * n + vv)
             j.update({"project": nm, "root": str(ctx.scratch / ("xproj%d_%d" % (n, vv)))})
             extras.append(j)
@@ -889,12 +912,15 @@ def run_property(ctx: Ctx, prop: str) -> int:
     for n, (fo, nd0, subj) in enumerate([(["nested"], [{"id": "pk.mod", "p": "HIDDEN"}], "pk.mod.Sub"),
                                          (["nested"], [{"id": "pk.mod.Sub", "p": "HIDDEN"}], "pk.mod.Sub.Inner"),
                                          (["nested"], [{"id": "pk.mod.Sub", "p": "PRIVATE"}], "pk.mod.Sub"),
-                                         (["move"], [{"id": "pk", "p": "PRIVATE"}], "pk.mod")]):
+                                         (["move"], [{"id": "pk", "p": "PRIVATE"}], "pk.mod"),
+                                         # base class first, then its subclass: the inherited-members table of the second page
+                                         ([], [], "pk.mod.Base+pk.mod.Sub")]):
         rec = find_model(fo, nd0)
         if rec is None:
             raise MachineryError("model for the --html-subject run not enumerated: %s %s" % (fo, nd0))
         j = enum_job(rec, 900000 + n, ctx.scratch, THEMES[n % 3], 6, rng)
-        j.update({"name": "subject%d" % n, "extra": ["--html-subject", subj], "partial": True, "predict": False})
+        j.update({"name": "subject%d" % n, "extra": [x for sb in subj.split("+") for x in ("--html-subject", sb)],
+                  "partial": True, "predict": False})
         jobs.append(j)
 
     # ---- histories of PrivacyHistory.tla (privacy looked up before a re-export renames the class and its members)
